@@ -25,10 +25,12 @@
 3c. Family L (SyltLayers / MC_Layers / Trace_Layers): module order, names handed on by `from` through exporting files
    (chains of length 1..3 through shapes/exports.sy and kit/exports.sy), every order of the main file's import
    statements, the same global names (run, start, boot) in every file, printing initialisers in every file, an imported
-   file's own `start` called from the main file's start directly or through other files. The specification decides for
-   every configuration whether it is accepted (a `from` finds a handed-on name only if the exporting file comes earlier
-   in the module order) and what an accepted one prints; c12 runl renders the files (import lines and reference texts are
-   the specification's), compiles and runs them; Trace_Layers re-derives every configuration and judges the record.
+   file's own `start` called from the main file's start directly or through other files. The specification says what an
+   accepted configuration prints; every configuration must be accepted except those in which a `from` takes a name the
+   other file only imported itself (verdict free: guide and tests/import/faulty_from_circular.sy disagree), and the verdict
+   must not depend on the order of the main file's import statements. c12 runl renders the files (import lines and
+   reference texts are the specification's), compiles and runs them; Trace_Layers re-derives every configuration and
+   judges the record together with the records of the same program in the other orders.
 4. Negative controls: corrupted observations (print dropped, status flipped, a file read twice, an unimported file read,
    a twin accepted, the variant rejected) and a stub implementation in which dropped imports stay visible must all be
    rejected by TLC.
@@ -64,7 +66,7 @@ def emit_l(wd, nv, seed, only=None, name="emit-L"):
     cases = {}
     for (t, c) in r.records:
         if t == "REPLAY":
-            cases[(c["n"], c["w"])] = c
+            cases[(c["base"], c["w"], c["n"])] = c      # sorted so: the orders of one program are neighbours
     cases = [cases[key] for key in sorted(cases)]
     for c in cases:
         c["tree"] = "L"
@@ -97,132 +99,189 @@ def validate_l(wd, name, trace, universe, nv, seed, nrec):
 
 
 def signature_l(case, why):
-    return "C12|%s|family=layers|chain=%d|consumer=%s|last-hop=%s|spec=%s|boots=%d|own-start-called=%d" % (
-        why, case["len"], case["cons"].replace(".sy", ""), case["last"], "accepted" if case["accepted"] else "rejected",
-        case["boots"], case["startdep"])
+    if why == "order-dependent-verdict":
+        return "C12|%s|family=layers|chain=%d|consumer=%s|last-hop=%s|handed-on-via-from=%d" % (
+            why, case["len"], case["cons"].replace(".sy", ""), case["last"], case["free"])
+    return "C12|%s|family=layers|chain=%d|consumer=%s|last-hop=%s|handed-on-via-from=%d|boots=%d|own-start-called=%d" % (
+        why, case["len"], case["cons"].replace(".sy", ""), case["last"], case["free"], case["boots"], case["startdep"])
 
 
-def describe_l(case, full, why):
-    return "%s (layers n=%d w=%d: chain of %d, consumer %s, last hop %s, module order %s): specification %s %s; compile=%s %s prints=%s status=%s" % (
+def describe_l(case, full, why, group=None):
+    if why == "order-dependent-verdict" and group:
+        return "the same program (layers n %% 288 = %d, w=%d: chain of %d, consumer %s, last hop %s) is %s depending on the order of the main file's import statements: %s" % (
+            case["base"], case["w"], case["len"], case["cons"], case["last"],
+            "accepted or rejected", "; ".join("%s -> %s" % (" / ".join(g[0]), g[1]) for g in group[:6]))
+    return "%s (layers n=%d w=%d: chain of %d, consumer %s, last hop %s, module order %s): specification prints %s; compile=%s %s prints=%s status=%s" % (
         why, case["n"], case["w"], case["len"], case["cons"], case["last"], ">".join(case["load"]),
-        "accepts, prints" if case["accepted"] else "rejects", case["expect"]["prints"], full["class"], full["error"][:120],
-        full["prints"], full["status"])
+        case["expect"]["prints"], full["class"], full["error"][:120], full["prints"], full["status"])
 
 
 def replay_obj_l(case, full):
     return {"family": "L", "tree": "L", "n": case["n"], "w": case["w"], "program": "layers",
-            "expected": {"class": case["expect"]["class"], "prints": case["expect"]["prints"], "status": case["expect"]["status"],
-                         "load": case["load"]},
+            "expected": {"verdict": "free: accepted or rejected, the same in every order of the main file's imports" if case["free"] else "accepted",
+                         "prints": case["expect"]["prints"], "status": case["expect"]["status"], "load": case["load"]},
             "files": full["files"], "observed": {k: full[k] for k in ("class", "error", "prints", "status", "reads")},
             "case": {k: v for k, v in case.items() if k != "files"}}
 
 
+def groups_l(cases, fulls):
+    """(base, w) -> [(main's import lines, compile result)] over the recorded configurations"""
+    g = {}
+    for c, f in zip(cases, fulls):
+        g.setdefault((c["base"], c["w"]), []).append((c["files"][0]["lines"], f["class"]))
+    return g
+
+
 def judge_l(cases, fulls, rejects, verdicts):
+    grp = groups_l(cases, fulls)
     for rec, whys in sorted(rejects.items()):
         case, full = cases[rec - 1], fulls[rec - 1]
         for why in whys:
-            verdicts.add(signature_l(case, why), describe_l(case, full, why), replay_obj_l(case, full))
+            verdicts.add(signature_l(case, why), describe_l(case, full, why, grp[(case["base"], case["w"])]), replay_obj_l(case, full))
 
 
 def vacuity_l(cases, recs, rejects, conforming_only):
-    """family L: every shape of the universe occurs (in configurations that conformed)"""
+    """family L: every shape of the universe occurs (conforming_only: in configurations that were accepted and conformed)"""
     cnt = {}
 
     def bump(key):
         cnt[key] = cnt.get(key, 0) + 1
     for i, c in enumerate(cases):
-        if conforming_only and (i + 1) in rejects:
+        if conforming_only and ((i + 1) in rejects or recs[i]["class"] != "ok"):
             continue
-        acc = "accepted" if c["accepted"] else "rejected"
-        bump("L:" + acc)
-        bump("L:chain%d/%s/%s" % (c["len"], c["last"], acc))
-        bump("L:consumer:%s/%s" % (c["cons"], acc))
-        if c["accepted"]:
-            if c["nhops"] >= 1 and c["last"] == "from":
-                bump("L:handed-on-name-through-from/chain%d" % c["len"])
-            if c["len"] >= 2 and c["last"] == "ns":
-                bump("L:handed-on-name-through-namespace")
-            for key in ("boots", "startdep", "extras", "cycle", "gofrom", "rev", "a1", "a2"):
-                if c[key]:
-                    bump("L:" + key)
-            if c["boots"] and len(c["load"]) >= 5 and c["nmain"] >= 3:
-                bump("L:boots-in-5-files-main-with-3-imports")
-            if c["startdep"] and c["em"] == 2:
-                bump("L:own-start-called-through-another-file")
-            if c["startdep"] and c["em"] != 2:
-                bump("L:own-start-called-from-main-start")
-            bump("L:smode%d" % c["smode"])
-            bump("L:main-imports:%d" % min(c["nmain"], 4))
-            if c["multi"] >= 1:
-                bump("L:other-file-with-several-imports")
-            bump("L:layout:" + c["layout"])
-        elif c["cons"] == "report.sy":
-            bump("L:rejected-only-because-of-module-order")
-    need = ["L:accepted", "L:rejected", "L:rejected-only-because-of-module-order", "L:handed-on-name-through-namespace",
-            "L:handed-on-name-through-from/chain2", "L:handed-on-name-through-from/chain3",
+        bump("L:configurations")
+        bump("L:chain%d/%s" % (c["len"], c["last"]))
+        bump("L:consumer:%s" % c["cons"])
+        bump("L:verdict-free" if c["free"] else "L:verdict-definite")
+        if c["free"] and c["last"] == "from":
+            bump("L:handed-on-name-through-from/chain%d" % c["len"])
+        if c["len"] >= 2 and c["last"] == "ns":
+            bump("L:handed-on-name-through-namespace")
+        for key in ("boots", "startdep", "extras", "cycle", "gofrom", "rev", "a1", "a2"):
+            if c[key]:
+                bump("L:" + key)
+        if c["boots"] and len(c["load"]) >= 5 and c["nmain"] >= 3:
+            bump("L:boots-in-5-files-main-with-3-imports")
+        if c["startdep"] and c["em"] == 2:
+            bump("L:own-start-called-through-another-file")
+        if c["startdep"] and c["em"] != 2:
+            bump("L:own-start-called-from-main-start")
+        bump("L:smode%d" % c["smode"])
+        bump("L:main-imports:%d" % min(c["nmain"], 4))
+        if c["multi"] >= 1:
+            bump("L:other-file-with-several-imports")
+        bump("L:layout:" + c["layout"])
+    need = ["L:verdict-definite", "L:handed-on-name-through-namespace",
             "L:boots", "L:startdep", "L:extras", "L:cycle", "L:gofrom", "L:rev", "L:a1", "L:a2",
             "L:boots-in-5-files-main-with-3-imports", "L:own-start-called-through-another-file", "L:own-start-called-from-main-start",
             "L:other-file-with-several-imports"] + \
            ["L:smode%d" % k for k in range(4)] + ["L:main-imports:%d" % k for k in (1, 2, 3, 4)] + \
            ["L:layout:" + l for l in ("plain", "paren", "multi")] + \
-           ["L:chain%d/%s/accepted" % (n, l) for n in (1, 2, 3) for l in ("from", "ns")] + \
-           ["L:chain%d/%s/rejected" % (n, l) for n in (2, 3) for l in ("from",)] + ["L:chain3/ns/rejected"] + \
-           ["L:consumer:%s/%s" % (f, a) for f in ("main.sy", "report.sy") for a in ("accepted", "rejected")]
+           ["L:chain%d/%s" % (n, l) for n in (1, 2, 3) for l in ("from", "ns") if not conforming_only or (n, l) in ((1, "from"), (1, "ns"), (2, "ns"))] + \
+           ["L:consumer:%s" % f for f in ("main.sy", "report.sy")] + \
+           ([] if conforming_only else ["L:verdict-free", "L:handed-on-name-through-from/chain2", "L:handed-on-name-through-from/chain3"])
     missing = [k for k in need if cnt.get(k, 0) == 0]
     if missing:
         vlib.tool_error("vacuity (family L): never exercised in %s configuration: %s" % (
-            "a conforming" if conforming_only else "any", ", ".join(missing)))
+            "an accepted, conforming" if conforming_only else "any", ", ".join(missing)))
     return cnt
 
 
 def controls_l(wd, recs, cases, rejects, nv, seed):
-    """corrupted observations of conforming L records: TLC must reject exactly those, for the expected reason"""
-    good = [i for i in range(len(recs)) if (i + 1) not in rejects]
-    acc = [i for i in good if cases[i]["accepted"]]
-    out, want = [], {}
+    """corrupted observations of conforming L records: TLC must reject exactly those, for the expected reason.
+    Whole groups (all orders of one program) are copied, one member is corrupted."""
+    groups = {}
+    for i, c in enumerate(cases):
+        groups.setdefault((c["base"], c["w"]), []).append(i)
+    # groups in which every record conforms and was accepted
+    clean = [g for g in groups.values() if all((i + 1) not in rejects and recs[i]["class"] == "ok" for i in g)]
+    chosen = {}      # group key -> (records, {position in group: whys})
 
-    def add(i, x, w):
-        out.append(x)
-        want[len(out)] = [w]
-    def copy(i):
-        return json.loads(json.dumps(recs[i]))
-    for n, i in enumerate(acc[::max(1, len(acc) // 24)][:24]):
-        x = copy(i)
-        if n % 4 == 0:
-            x["prints"] = x["prints"][:-1]
-            add(i, x, "prints-differ")
-        elif n % 4 == 1:
-            x["class"], x["errkind"], x["prints"], x["status"] = "err", "compile", [], "none"
-            add(i, x, "variant-err")
-        elif n % 4 == 2:
-            [r for r in x["reads"] if r["path"] == cases[i]["load"][-1]][0]["n"] = 2
-            add(i, x, "file-read-twice")
-        else:
-            x["status"] = "assert_failed"
-            add(i, x, "status-differs")
-    # two sibling initialisers in the other order (another module order)
-    for i in [i for i in acc if cases[i]["boots"] and len(cases[i]["load"]) >= 3][:8]:
-        x = copy(i)
+    def add_group(g, k, mutate, why, all_whys=None):
+        key = (cases[g[0]]["base"], cases[g[0]]["w"])
+        if key in chosen:
+            return False
+        xs, wl = [], {}
+        for j, i in enumerate(g):
+            x = json.loads(json.dumps(recs[i]))
+            if j == k:
+                mutate(x, cases[i])
+                wl[j] = [why]
+            xs.append(x)
+        for j in range(len(g)):
+            if all_whys:
+                wl[j] = sorted(set(wl.get(j, [])) | set(all_whys))
+        chosen[key] = (xs, wl)
+        return True
+
+    def drop_print(x, c):
+        x["prints"] = x["prints"][:-1]
+
+    def reject(x, c):
+        x["class"], x["errkind"], x["prints"], x["status"] = "err", "compile", [], "none"
+
+    def read_twice(x, c):
+        [r for r in x["reads"] if r["path"] == c["load"][-1]][0]["n"] = 2
+
+    def status(x, c):
+        x["status"] = "assert_failed"
+
+    def swap_boots(x, c):
         x["prints"][1], x["prints"][2] = x["prints"][2], x["prints"][1]
-        add(i, x, "prints-differ")
-    # another file's start ran instead of the main file's
-    for i in [i for i in acc if cases[i]["startdep"]][:8]:
-        x = copy(i)
+
+    def other_start(x, c):
         x["prints"] = [p for p in x["prints"] if p.endswith(" boot")] + ["engine start", "engine run"]
-        add(i, x, "prints-differ")
-    # a configuration the specification rejects was accepted
-    for i in [i for i in good if not cases[i]["accepted"]][:8]:
-        x = copy(i)
-        x["class"], x["errkind"], x["prints"], x["status"] = "ok", "", ["main start"], "done"
-        add(i, x, "late-export-accepted")
+
+    definite = [g for g in clean if not cases[g[0]]["free"]]
+    free = [g for g in clean if cases[g[0]]["free"]]
+    plan = [(drop_print, "prints-differ", clean, lambda c: True),
+            (read_twice, "file-read-twice", clean, lambda c: True),
+            (status, "status-differs", clean, lambda c: True),
+            (swap_boots, "prints-differ", clean, lambda c: c["boots"] and len(c["load"]) >= 3),
+            (other_start, "prints-differ", clean, lambda c: c["startdep"])]
+    for mutate, why, pool, cond in plan:
+        n = 0
+        for g in pool[::max(1, len(pool) // 40)]:
+            if n < 6 and cond(cases[g[0]]) and add_group(g, len(g) // 2, mutate, why):
+                n += 1
+        if n == 0:
+            vlib.tool_error("negative control (family L): no group to corrupt for %s" % why)
+    # a configuration in which no name is handed on through `from` is rejected: variant-err, and - when another order of
+    # the same program is accepted - an order-dependent verdict
+    n = 0
+    for g in definite[::max(1, len(definite) // 40)]:
+        if n < 6 and add_group(g, len(g) // 2, reject, "variant-err", ["order-dependent-verdict"] if len(g) > 1 else None):
+            n += 1
+    # a free-verdict program whose verdict is the same in every order, with ONE order flipped: the flipped record conforms on
+    # its own (rejected resp. accepted with the model's prints), the order dependence does not
+    def accept(x, c):
+        x["class"], x["errkind"], x["prints"], x["status"] = "ok", "", list(c["expect"]["prints"]), "done"
+
+    uniform = [g for g in groups.values() if len(g) > 1 and cases[g[0]]["free"] and all((i + 1) not in rejects for i in g)
+               and len({recs[i]["class"] for i in g}) == 1]
+    n_free = 0
+    for g in uniform[::max(1, len(uniform) // 40)]:
+        if n_free < 6 and add_group(g, 0, reject if recs[g[0]]["class"] == "ok" else accept, "order-dependent-verdict",
+                                    ["order-dependent-verdict"]):
+            n_free += 1
+    if n_free == 0:
+        vlib.tool_error("negative control (family L): no free-verdict program with a uniform verdict to make order dependent")
+    out, want = [], {}
+    for key in sorted(chosen):          # Trace_Layers wants the records sorted by (n % NBaseL, w, n)
+        xs, wl = chosen[key]
+        for j, x in enumerate(xs):
+            out.append(x)
+            if j in wl:
+                want[len(out)] = wl[j]
     path = os.path.join(wd, "neg-L.ndjson")
     vlib.write_ndjson(path, out)
     _, got = validate_l(wd, "neg-L", path, "part", nv, seed, len(out))
-    if got != want or len({w[0] for w in want.values()}) < 5:
-        bad = [k for k in want if got.get(k) != want[k]]
-        vlib.tool_error("negative control accepted (family L): %d of %d corrupted observations were not rejected as expected (e.g. record %s: want %s got %s)" % (
-            len(bad), len(want), bad[:1], [want[b] for b in bad[:1]], [got.get(b) for b in bad[:1]]))
-    return len(want)
+    kinds = {w for ws in want.values() for w in ws}
+    if got != want or len(kinds) < 5:
+        bad = [k for k in want if got.get(k) != want[k]] + [k for k in got if k not in want]
+        vlib.tool_error("negative control accepted (family L): %d of %d corrupted observations were not judged as expected (e.g. record %s: want %s got %s)" % (
+            len(bad), len(want), bad[:1], [want.get(b) for b in bad[:1]], [got.get(b) for b in bad[:1]]))
+    return len(want), n_free
 
 
 def layers_phase(wd, tier, seed, verdicts):
@@ -236,11 +295,19 @@ def layers_phase(wd, tier, seed, verdicts):
     before = len(verdicts.violations)
     judge_l(cases, fulls, rejects, verdicts)
     vacuity_l(cases, recs, rejects, False)
-    cnt = vacuity_l(cases, recs, rejects, len(verdicts.violations) == before)
+    cnt = vacuity_l(cases, recs, rejects, True) if len(verdicts.violations) == before else vacuity_l(cases, recs, rejects, False)
     nconf = len(cases) - len(rejects)
-    n_ctl = controls_l(wd, recs, cases, rejects, nv, seed) if (not rejects or nconf >= 200) else 0
+    n_ctl, n_free = controls_l(wd, recs, cases, rejects, nv, seed) if (len(verdicts.violations) == before or nconf >= 200) else (0, 0)
+    grp = groups_l(cases, fulls)
+    obs = {"programs": len(grp),
+           "accepted_in_every_order": sum(1 for g in grp.values() if {x[1] for x in g} == {"ok"}),
+           "rejected_in_every_order": sum(1 for g in grp.values() if {x[1] for x in g} == {"err"}),
+           "verdict_depends_on_order": sum(1 for g in grp.values() if len({x[1] for x in g}) > 1),
+           "configurations_accepted": sum(1 for x in recs if x["class"] == "ok"),
+           "configurations_rejected": sum(1 for x in recs if x["class"] == "err"),
+           "free_verdict_configurations": sum(1 for c in cases if c["free"])}
     return {"r": r, "v": v, "info": info[0], "cases": cases, "recs": recs, "fulls": fulls, "rejects": rejects, "cnt": cnt,
-            "controls": n_ctl, "nv": nv}
+            "controls": n_ctl, "controls_free_groups": n_free, "nv": nv, "observed": obs}
 
 
 def cid(c):
@@ -537,12 +604,15 @@ def run(ctx):
             v, rejects = validate_l(wd, "replay-L", tf, "part", 1, 0, len(cases))
             for path, text in fulls[0]["files"].items():
                 print("----- %s\n%s" % (path, text))
-            print("module order: %s" % " > ".join(cases[0]["load"]))
-            print("expected: %s" % json.dumps(cases[0]["expect"]))
-            print("observed: %s" % json.dumps({k: fulls[0][k] for k in ("class", "error", "prints", "status")}))
+            k0 = [i for i, c in enumerate(cases) if c["n"] == rp["n"]][0]
+            print("module order: %s" % " > ".join(cases[k0]["load"]))
+            print("expected: %s %s" % ("verdict free;" if cases[k0]["free"] else "accepted;", json.dumps(cases[k0]["expect"])))
+            print("observed: %s" % json.dumps({k: fulls[k0][k] for k in ("class", "error", "prints", "status")}))
+            for c, f in zip(cases, fulls):
+                print("main file's imports %s -> %s %s" % (" / ".join(c["files"][0]["lines"]), f["class"], f["error"][:90]))
             judge_l(cases, fulls, rejects, verdicts)
-            ev.set(states=r.distinct + v.distinct, transitions=r.generated + v.generated, traces_validated_against_impl=1,
-                   samples=[sample_l(cases[0], fulls[0])])
+            ev.set(states=r.distinct + v.distinct, transitions=r.generated + v.generated, traces_validated_against_impl=len(cases),
+                   samples=[sample_l(cases[k0], fulls[k0])])
             rc = verdicts.finish()
             ev.violations = len(verdicts.violations)
             ev.write()
@@ -637,9 +707,10 @@ def run(ctx):
     t_emit += L["r"].wall_s
     t_val += L["v"].wall_s
     l_ok = [i for i, c in enumerate(L["cases"]) if (i + 1) not in L["rejects"]]
-    l_pick = [i for i in l_ok if L["cases"][i]["accepted"] and L["cases"][i]["len"] == 3 and L["cases"][i]["last"] == "from"][:1] + \
-             [i for i in l_ok if L["cases"][i]["accepted"] and L["cases"][i]["startdep"] and L["cases"][i]["boots"]][:1] + \
-             [i for i in l_ok if not L["cases"][i]["accepted"] and L["cases"][i]["cons"] == "report.sy"][:1]
+    l_acc = [i for i in range(len(L["cases"])) if L["recs"][i]["class"] == "ok"]
+    l_pick = [i for i in l_acc if L["cases"][i]["len"] == 3 and L["cases"][i]["last"] == "from"][:1] + \
+             [i for i in l_acc if i in l_ok and L["cases"][i]["startdep"] and L["cases"][i]["boots"]][:1] + \
+             [i for i in range(len(L["cases"])) if L["recs"][i]["class"] == "err" and L["cases"][i]["cons"] == "report.sy"][:1]
 
     ntwins = sum(len(c["twins"]) for c in cases)
     multi = [i for i, c in enumerate(cases) if len(c["files"]) > 1]
@@ -653,12 +724,10 @@ def run(ctx):
     ev.set(states=states, transitions=transitions,
            traces_validated_against_impl=len(recs) + len(drecs) + len(L["recs"]), programs=len(recs) + ntwins + len(drecs) + len(L["recs"]),
            evaluations=len(recs) + ntwins + len(drecs) + len(L["recs"]),
-           distinct_nontrivial=distinct + len({vlib.sha(L["fulls"][i]["files"]) for i in l_ok if L["cases"][i]["accepted"]}),
+           distinct_nontrivial=distinct + len({vlib.sha(L["fulls"][i]["files"]) for i in l_ok if L["recs"][i]["class"] == "ok"}),
            configurations=len(cases) + len(L["cases"]), placements=nplace, negative_twins=ntwins,
            layers={"primaries": L["info"]["primaries"], "variants_per_primary": L["nv"], "configurations": len(L["cases"]),
-                   "accepted_by_specification": sum(1 for c in L["cases"] if c["accepted"]),
-                   "rejected_by_specification": sum(1 for c in L["cases"] if not c["accepted"]),
-                   "rejected_records": len(L["rejects"]), "tree": L["info"]["tree"]},
+                   "observed": L["observed"], "rejected_records": len(L["rejects"]), "tree": L["info"]["tree"]},
            variants_per_placement=nv,
            base_programs={"%s/%s" % (p["tree"], p["name"]): {"expected_prints": p["prints"], "status": p["status"],
                                                             "placements": p["nplaces"]} for p in progs_all},
@@ -667,10 +736,11 @@ def run(ctx):
            disk={"configurations": ndisk, "records": len(drecs), "spellings": per_model["A"]["progs"][0]["spellings"],
                  "rejected": len(drej)}, tlc_emit_wall_s=round(t_emit, 1), tlc_validate_wall_s=round(t_val, 1),
            spec_invariants=["PathsOK", "ProgramsOK", "ConfigOK = UniqueNames /\\ RefsResolve /\\ NotImportedInvisible /\\ LoadOnce /\\ ImportsExist",
-                            "ConfigOKL = LoadOnceL /\\ UniqueNamesL /\\ RefsResolveL /\\ RejectedIffLate"],
+                            "ConfigOKL = LoadOnceL /\\ UniqueNamesL /\\ RefsResolveL /\\ ModelOK", "OrderIndependent (Trace_Layers: one verdict per program)"],
            negative_controls_rejected=n_a + n_b + n_dctl + L["controls"],
            negative_controls={"corrupted_observations_rejected": n_a, "stub_visible_dropped_imports_rejected": n_b,
-                              "corrupted_disk_observations_rejected": n_dctl, "corrupted_layers_observations_rejected": L["controls"]},
+                              "corrupted_disk_observations_rejected": n_dctl, "corrupted_layers_observations_rejected": L["controls"],
+                              "layers_groups_made_order_dependent_rejected": L["controls_free_groups"]},
            exhaustive=(tier == "thorough"),
            exhaustive_scope="all placements of every base program's globals over each 6-file tree (<= 3 files besides main.sy); "
                             "thorough: 8 of the 64 variants per placement, quick: 1 (seed-dependent); family L: all 1106 applicable primaries "
@@ -697,10 +767,12 @@ def run(ctx):
               "are std module names are never written (whether a project file shadows the std module is not documented)",
               "out of the universe: `use /` without alias, path texts with a .sy suffix; names a file only imported (handed on by "
               "`from` or through its namespace) occur in family L only",
-              "family L, as built and documented by tests/import/faulty_from_circular.sy: module order = main file first, then "
-              "depth-first with the LAST import of a file first; `from p use n` finds a name p's file only imported iff that file "
-              "comes earlier in the module order, otherwise the program is rejected; initialisers on which nothing depends run in "
-              "module order, then text order; the entry point is the start of the file being run",
+              "family L: a program in which `from p use n` takes a name p's file only imported may be accepted or rejected (the guide "
+              "suggests the former, tests/import/faulty_from_circular.sy pins the latter) but the verdict must not depend on the "
+              "order of the main file's import statements, and an accepted one must behave as the model; every other configuration "
+              "must be accepted; module order (as built) = main file first, then depth-first with the LAST import of a file first; "
+              "initialisers on which nothing depends run in module order, then text order; the entry point is the start of the "
+              "file being run",
               "the project root is the directory containing the file being run, however that file is spelled; on disk a read is "
               "attributed to the canonical file, so two spellings of one file count as two reads of it",
               "import statements are written at the start or at the end of a file; twins are judged by compile result only")
